@@ -1099,6 +1099,8 @@ def checkpoint_resume(doc):
                 if want_calls != ref_calls or want_res != ref_res:
                     continue   # the uninterrupted run itself is C09's subject
                 points = [(i,) for i in range(nsteps)] + [(i, i + 1) for i in range(0, nsteps - 1, 2)]
+                if doc.get('tier') == 'thorough':
+                    points = [c for r in (1, 2, 3) for c in itertools.combinations(range(nsteps), r)]
                 for crashes in points:
                     try:
                         got_calls, got_res, _ = await run(cls, crashes)
@@ -1383,7 +1385,8 @@ def context_barrier(doc):
 
     async def main():
         base = _barrier_chain()
-        for n, via_return, mode in itertools.product([1, 2, 3], [False, True], ['spread', 'same-iteration', 'done-before-the-wait', 'while-paused']):
+        sizes = [1, 2, 3, 4] if doc.get('tier') == 'thorough' else [1, 2, 3]
+        for n, via_return, mode in itertools.product(sizes, [False, True], ['spread', 'same-iteration', 'done-before-the-wait', 'while-paused']):
             keys = ['k%d' % i for i in range(n)]
             for order in itertools.permutations(range(n)):
                 for failing in [None] + list(range(n)):
@@ -1928,7 +1931,7 @@ def control_histories(doc):
             ref['task'].cancel()
         reqs = ['pause', 'pause0', 'play', 'kill', 'resume']
         for point in ('created', 'paused', 'running', 'waiting'):
-            for n in (1, 2, 3):
+            for n in ((1, 2, 3, 4) if doc.get('tier') == 'thorough' else (1, 2, 3)):
                 for requests in itertools.product(reqs, repeat=n):
                     if 'resume' in requests and point != 'waiting':
                         continue
@@ -2003,8 +2006,28 @@ def control_histories(doc):
                     for prop, kind, text in probs:
                         if prop in want:
                             failures.append((f'{prop}|{key}|{kind}', text))
-        new = [(k, t) for k, t in failures if k not in known]
-        for k in sorted({k for k, _ in failures if k in known}):
+        def listed(key):
+            """a failing history is a listed one, or (longer histories of the thorough tier) a listed history of the same point and
+            kind extended by further requests: the listed requests occur in it in the same order"""
+            if key in known:
+                return key
+            prop, hist, kind = key.split('|')
+            point, reqs_ = hist.split(':')
+            seq_ = reqs_.split('+')
+            if len(seq_) <= 3:
+                return None
+            for k in known:
+                p2, h2, k2 = k.split('|')
+                pt2, r2 = h2.split(':')
+                if (p2, pt2, k2) != (prop, point, kind):
+                    continue
+                it = iter(seq_)
+                if all(any(x == y for y in it) for x in r2.split('+')):
+                    return k
+            return None
+
+        new = [(k, t) for k, t in failures if listed(k) is None]
+        for k in sorted({listed(k) for k, _ in failures if listed(k) is not None}):
             print('KNOWN-HISTORY', k)
         if doc.get('list_all'):
             for k, t in failures:
